@@ -39,6 +39,7 @@ def recv_field(body, t):
 
 def run(ctx, rep):
     prog = ctx.prog
+    wiring_rule(ctx, rep, "C19")
     for r, tx in (("C19.a", "authoritative results come from the backend"), ("C19.b", "cache is pruned on every listing of a cacheable type"),
                   ("C19.c", "cacheability predicates agree"), ("C19.d", "atomic cache writes, temp names never listed"), ("C19.e", "cache hits return exactly the requested range")):
         rep.rule(r, tx)
